@@ -33,7 +33,7 @@ def required_classes(tier):
     out = []
     for cv in CURVES:
         out += ["%s:ref-vs-opt" % cv, "%s:split-product" % cv, "%s:verifier-shape" % cv, "%s:finalexp" % cv]
-    out += ["threads:pairings", "opt:sparse-rescaled", "same-operands-both-flags", "bls12_381:exp_by_p", "opt:rescaled", "product:identity-factor", "fq12:zero", "fq12:sparse", "fq12:subfield", "fq12:random", "fq12:miller-output"]
+    out += ["identity-operand", "threads:pairings", "opt:sparse-rescaled", "same-operands-both-flags", "bls12_381:exp_by_p", "opt:rescaled", "product:identity-factor", "fq12:zero", "fq12:sparse", "fq12:subfield", "fq12:random", "fq12:miller-output"]
     return out
 
 
@@ -101,6 +101,23 @@ def run(rec):
         rec.check(mon, ok, cls, "%s: %s" % (cv, what), case=dict(case, curve=cv), facts={"curve": cv, "identity": cls})
 
     mult = 1 if quick else 12
+    # ---------------------------------------------------------------- (a0) the identity as an operand, every representative, vs reference
+    if role in (0, 3):
+        a, b = rng.randrange(1, S.r), rng.randrange(1, S.r)
+        Pt, Q = S.E1.mul(S.g1, a), S.E2.mul(S.g2, b)
+        for rep_ in CG.INF_REPS:
+            for Qm, Pm in ((None, Pt), (Q, None), (None, None)):
+                rec.case("identity-operand", ("idop", cv, rep_, Qm is None, Pm is None), sample={"curve": cv, "identity_as": rep_, "Q_is_identity": Qm is None, "P_is_identity": Pm is None})
+                s1, v1 = call(pr.pairing, CG.to_lib(refk, Qm, 2), CG.to_lib(refk, Pm, 1))
+                qo = CG.to_lib(optk, Qm, 2, rng, inf_rep=rep_) if Qm is None else Lo(Qm, 2)
+                po_ = CG.to_lib(optk, Pm, 1, rng, inf_rep=rep_) if Pm is None else Lo(Pm, 1)
+                s2, v2 = call(po.pairing, qo, po_)
+                s3, v3 = call(po.pairing, qo, po_, final_exponentiate=False)
+                chk("B-c12.ref-vs-opt", s1 == "ok" and s2 == "ok" and tup(v1, S.p) == tup(v2, S.p) == F12.one, "identity-operand",
+                    "pairing with the identity %s: reference %r, optimized %r" % (rep_, v1 if s1 != "ok" else tup(v1, S.p)[:2], v2 if s2 != "ok" else tup(v2, S.p)[:2]))
+                chk("B-c12.ref-vs-opt", s3 == "ok" and F12.pow(tup(v3, S.p), (S.p ** 12 - 1) // S.r) == F12.one, "identity-operand",
+                    "optimized pairing(final_exponentiate=False) with the identity %s does not exponentiate to the unit" % rep_)
+    rec.case("identity-operand", None, nontrivial=False)
     # ---------------------------------------------------------------- (a) reference vs optimized
     if role in (0, 1):
         for j in range(2 * mult):
@@ -172,6 +189,10 @@ def run(rec):
                     ok = False
                     chk("B-c12.split", False, "split", "pairing raised: %r %r" % (m, f))
                     break
+                if Q is None or Pt is None:
+                    # the reference pairing of the identity with anything is the unit (with and without the final exponentiation)
+                    chk("B-c12.ref-vs-opt", tup(f, S.p) == F12.one and F12.pow(tup(m, S.p), (S.p ** 12 - 1) // S.r) == F12.one, "identity-operand",
+                        "optimized pairing with the identity as %s argument is not the unit" % ("first" if Q is None else "second"))
                 miller_vals.append(tup(m, S.p))
                 acc_raw = acc_raw * m
                 acc_model = F12.mul(acc_model, tup(m, S.p))
